@@ -18,6 +18,8 @@ history of
     sleep  simulated time passes between statements (the queue drains, or does not)
     jump   host clock step (small backwards, larger forwards)
     reset  CLEAR (documented to reset the PLAY state and stop sound)
+    restart  Session.suspend to a file, close; `s` simulated seconds pass; Session.resume, attach the
+           (recording) audio queue anew - typically while background music is queued
 on a simulated clock with seeded sleep(0) jitter. The audio queue is the recording queue of the
 World; tones are read from `world.audio.signals`.
 Modes (cfg['mode']): 'direct' - every statement is a direct-mode line; 'program' - the var/play/reset
@@ -39,10 +41,21 @@ Oracles
     reading of the property under which every A is 440*2^k Hz.
   * malformed strings -> error 5 (tones before the malformed command may or may not have been
     emitted: only "a prefix of what the string specifies up to there" is required); well-formed
-    strings -> no error. A statement that ended in an error or a Break may have been given up at any
-    command: the PLAY state afterwards is known only if no command of the string changes it;
-    otherwise the machine sets every state variable explicitly (`PLAY "MF O4 L4 T120 MN"`) on both
-    sides (also after a reported violation, so that consequences are not reported again).
+    strings -> no error. A statement that ended in an error or a Break: every command takes effect
+    when it is interpreted, so the commands up to the one that made the last entry the engine
+    emitted have taken effect; the statement may have been given up at any command after that one
+    (up to the malformed one). If all of these leave the same PLAY state, that is the state the
+    next PLAY is judged with (so: a Break during the wait of a foreground PLAY, or of a background
+    PLAY whose tones have all been queued, leaves the state the string set; so does an Illegal
+    function call behind state-changing commands that were followed by a note). Otherwise the
+    machine sets every state variable explicitly (`PLAY "MF O4 L4 T120 MN"`) on both sides (also
+    after a reported violation, so that consequences are not reported again).
+  * restart: the entries emitted to the audio queue attached after the resume are the entries of
+    the queue model that had not finished at the suspend, in order, with their frequency and
+    duration; the first one (it was sounding) with what was left of it up to all of it; the PLAY
+    state and the variables survive; PLAY(0) is the number of notes and rests (not gaps) among
+    them, with or without the one sounding. Judged only where the model knows the queue (not
+    after clock steps / STOP with sound queued).
   * bounded liveness, in simulated time, from a model of the sound queue (absolute end time of
     every queued tone/gap): a foreground PLAY returns no later than the end of the last note +
     a tick (+ poll jitter), and not before the last note has started; a background PLAY that
@@ -55,7 +68,7 @@ Not covered: Tandy/PCjr multi-voice PLAY and V; SOUND/NOISE/BEEP; shapes whose m
 documentation leaves open (length 0, P0, E#/B#/C-/F-, blanks inside numbers, signed numbers,
 doubled or trailing semicolons, dots after N); array elements referred to by name (=A%(1););
 strings that hold a pointer to an array element and also create a scalar by naming it (the pointer
-goes stale); VARPTR$ of a scalar that an earlier string may have created by naming it; strings of
+goes stale); QUIT/suspend in the middle of a PLAY statement; VARPTR$ of a scalar that an earlier string may have created by naming it; strings of
 more than 255 bytes; CONT itself (a program that does not arrive at the next STOP is given up,
 probe 'program-lost').
 """
@@ -76,7 +89,8 @@ RULE = ('one evaluation = one simulated session history (direct mode, or a store
         'reference interpreter')
 REAL = ['pcbasic.basic (whole package)', 'pcbasic.basic.sound (Sound.play_, emit_tone, TimedQueue)',
         'pcbasic.basic.mlparser', 'pcbasic.basic.eventcycle (wait loop, Break)',
-        'pcbasic.basic.memory (scalars, arrays, VARPTR$ dereference)', 'pcbasic.basic.interpreter (Break, STOP, CONT)']
+        'pcbasic.basic.memory (scalars, arrays, VARPTR$ dereference)', 'pcbasic.basic.interpreter (Break, STOP, CONT)',
+        'pcbasic.basic.state (suspend/resume), Sound.rebuild, TimedQueue pickling']
 STUB = ['wall clock (simulated: datetime.now, time.sleep)', 'audio back end (recording queue)',
         'keyboard (Ctrl-Break signal injected at a simulated time or at a chosen poll)']
 ASSUMPTIONS = [
